@@ -8,8 +8,38 @@ use sozu_command_lib::{
     certificate::{get_cn_and_san_attributes, parse_pem, parse_x509, Fingerprint},
     proto::command::{AddCertificate, CertificateAndKey, ReplaceCertificate, SocketAddress},
 };
-use sozu_lib::{protocol::mux::router::verif as strict_sni, tls::CertificateResolver};
+use rustls::server::ResolvesServerCert;
+use sozu_lib::{
+    protocol::mux::router::verif as strict_sni,
+    tls::{CertificateResolver, MutexCertificateResolver},
+};
 use verif_harness::*;
+
+/// The ClientHello a rustls client writes, its server name replaced on the wire by `wire` (the client side of
+/// rustls would trim a trailing dot and lower-case; a peer is free not to), fed to a rustls `Acceptor`, and the
+/// REAL `MutexCertificateResolver::resolve` called on the resulting `ClientHello`, as rustls does in a handshake.
+/// -> Err(why rustls refuses the hello) | Ok((server name handed to resolve, leaf certificate DER served))
+fn served_by_hello(m: &MutexCertificateResolver, wire: &[u8]) -> Result<(Option<String>, Option<Vec<u8>>), String> {
+    let placeholder: String = "x".repeat(wire.len());
+    let config = rustls::ClientConfig::builder_with_provider(std::sync::Arc::new(rustls::crypto::ring::default_provider()))
+        .with_safe_default_protocol_versions()
+        .map_err(|e| e.to_string())?
+        .with_root_certificates(rustls::RootCertStore::empty())
+        .with_no_client_auth();
+    let name = rustls::pki_types::ServerName::try_from(placeholder.clone()).map_err(|e| e.to_string())?;
+    let mut client = rustls::ClientConnection::new(std::sync::Arc::new(config), name).map_err(|e| e.to_string())?;
+    let mut bytes = Vec::new();
+    client.write_tls(&mut bytes).map_err(|e| e.to_string())?;
+    let pos = bytes.windows(wire.len()).position(|w| w == placeholder.as_bytes()).ok_or("server name not found in the ClientHello")?;
+    bytes[pos..pos + wire.len()].copy_from_slice(wire);
+    let mut acceptor = rustls::server::Acceptor::default();
+    acceptor.read_tls(&mut &bytes[..]).map_err(|e| e.to_string())?;
+    let accepted = acceptor.accept().map_err(|(e, _)| e.to_string())?.ok_or("incomplete ClientHello")?;
+    let hello = accepted.client_hello();
+    let seen = hello.server_name().map(str::to_owned);
+    let key = m.resolve(hello);
+    Ok((seen, key.map(|k| k.cert[0].as_ref().to_vec())))
+}
 
 const POOL: usize = 10;
 
@@ -308,6 +338,68 @@ fn run_with(pool: &[PoolCert], case: &Case, out: &mut Out) {
                 let exp = spec_authority_covered(authority.as_bytes(), &nb);
                 if exp != got.is_some() {
                     out.viol("authority", &format!("authority {} against {:?}: predicate says {}, RFC 6125 reference says {}", show(authority.as_bytes()), names, got.is_some(), exp));
+                }
+            }
+            "hello" => {
+                let wire = a[0].b();
+                if wire.is_empty() || wire.len() > 63 {
+                    out.note("invalid-case: hello names are 1..63 bytes");
+                    out.obs(&[]);
+                    continue;
+                }
+                let m = MutexCertificateResolver(std::sync::Mutex::new(std::mem::take(&mut r)));
+                let res = served_by_hello(&m, wire);
+                // what https.rs upgrade_handshake does next with the session's server name: lower-case, one trailing
+                // dot stripped, then the strict-SNI snapshot names_for_sni
+                let conn_name: Vec<u8> = {
+                    let mut x = wire.to_ascii_lowercase();
+                    if x.last() == Some(&b'.') {
+                        x.pop();
+                    }
+                    x
+                };
+                let snap = m.names_for_sni(&conn_name);
+                r = m.0.into_inner().expect("resolver mutex");
+                match res {
+                    Err(e) => {
+                        out.note(&format!("invalid-case: rustls refuses the server name {}: {e}", show(wire)));
+                        out.obs(&[]);
+                    }
+                    Ok((_seen, leaf)) => {
+                        let fp = leaf.as_ref().map(|d| sozu_command_lib::certificate::calculate_fingerprint_from_der(d));
+                        let served: Option<&Stored> = fp.as_ref().and_then(|f| store.iter().find(|c| &c.fp == f));
+                        let mut t = match served {
+                            Some(c) => vec![ts("served"), tb(&c.fp)],
+                            None => vec![ts("default")],
+                        };
+                        match &snap {
+                            Some(ns) => {
+                                t.push(ts("snap"));
+                                t.extend(ns.iter().map(|x| tb(x.as_bytes())));
+                            }
+                            None => t.push(ts("nosnap")),
+                        }
+                        out.obs(&t);
+                        // the connection's name (absolute form = relative form, RFC 1034 3.1) must be served a loaded
+                        // certificate that covers it when there is one, and the snapshot must be that certificate's names
+                        let n = &conn_name;
+                        if !(n.is_empty() || n[0] == b'.' || n.contains(&b'/') || n.contains(&b'*')) {
+                            let covering = store.iter().any(|c| c.names.iter().any(|x| covers(x, n, true) || covers(x, n, false)));
+                            if covering && served.is_none() {
+                                out.viol("missed", &format!("server name {} (on the wire: {}) is served the default certificate although a loaded certificate covers it", show(n), show(wire)));
+                            }
+                        }
+                        let snap_b: Option<Vec<Vec<u8>>> = snap.map(|ns| ns.into_iter().map(|x| x.into_bytes()).collect());
+                        let served_names: Option<Vec<Vec<u8>>> = served.map(|c| c.names.clone());
+                        if snap_b.is_some() && snap_b != served_names {
+                            out.viol(
+                                "snapshot-differs",
+                                &format!("server name {} on the wire: the strict-SNI snapshot is {:?} but the handshake was served {}", show(wire),
+                                    snap_b.as_ref().map(|v| v.iter().map(|x| show(x)).collect::<Vec<_>>()),
+                                    served.map(|c| hex(&c.fp)[..8].to_string()).unwrap_or("the default certificate".into())),
+                            );
+                        }
+                    }
                 }
             }
             "authsni" => {
